@@ -121,7 +121,7 @@ macro_rules! mat_impl_mat {
                     for i in 0..$nrows {
                         let row = m.rows.get_unchecked(i);
                         $(
-                            mem::forget(mem::replace((&mut *array.as_mut_ptr()).get_unchecked_mut(cur), ptr::read(&row.$get)));
+                            ptr::write((&mut *array.as_mut_ptr()).get_unchecked_mut(cur), ptr::read(&row.$get));
                             cur += 1;
                         )+
                     }
@@ -179,7 +179,7 @@ macro_rules! mat_impl_mat {
                     for i in 0..$nrows {
                         let row = (&mut *m.as_mut_ptr()).rows.get_unchecked_mut(i);
                         $(
-                            mem::forget(mem::replace(&mut row.$get, ptr::read(array.get_unchecked(cur))));
+                            ptr::write(&mut row.$get, ptr::read(array.get_unchecked(cur)));
                             cur += 1;
                         )+
                     }
@@ -234,7 +234,7 @@ macro_rules! mat_impl_mat {
                     let mut array: mem::MaybeUninit<[T; $nrows*$ncols]> = mem::MaybeUninit::uninit();
                     $(
                         for i in 0..$nrows {
-                            mem::forget(mem::replace((&mut *array.as_mut_ptr()).get_unchecked_mut(cur), ptr::read(&m.rows.get_unchecked(i).$get)));
+                            ptr::write((&mut *array.as_mut_ptr()).get_unchecked_mut(cur), ptr::read(&m.rows.get_unchecked(i).$get));
                             cur += 1;
                         }
                     )+
@@ -291,7 +291,7 @@ macro_rules! mat_impl_mat {
                     let mut m: mem::MaybeUninit<Self> = mem::MaybeUninit::uninit();
                     $(
                         for i in 0..$nrows {
-                            mem::forget(mem::replace(&mut (&mut *m.as_mut_ptr()).rows.get_unchecked_mut(i).$get, ptr::read(array.get_unchecked(cur))));
+                            ptr::write(&mut (&mut *m.as_mut_ptr()).rows.get_unchecked_mut(i).$get, ptr::read(array.get_unchecked(cur)));
                             cur += 1;
                         }
                     )+
@@ -649,7 +649,7 @@ macro_rules! mat_impl_mat {
                     for i in 0..$ncols {
                         let col = m.cols.get_unchecked(i);
                         $(
-                            mem::forget(mem::replace((&mut *array.as_mut_ptr()).get_unchecked_mut(cur), ptr::read(&col.$get)));
+                            ptr::write((&mut *array.as_mut_ptr()).get_unchecked_mut(cur), ptr::read(&col.$get));
                             cur += 1;
                         )+
                     }
@@ -707,7 +707,7 @@ macro_rules! mat_impl_mat {
                     for i in 0..$ncols {
                         let col = (&mut *m.as_mut_ptr()).cols.get_unchecked_mut(i);
                         $(
-                            mem::forget(mem::replace(&mut col.$get, ptr::read(array.get_unchecked(cur))));
+                            ptr::write(&mut col.$get, ptr::read(array.get_unchecked(cur)));
                             cur += 1;
                         )+
                     }
@@ -762,7 +762,7 @@ macro_rules! mat_impl_mat {
                     let mut array: mem::MaybeUninit<[T; $nrows*$ncols]> = mem::MaybeUninit::uninit();
                     $(
                         for i in 0..$ncols {
-                            mem::forget(mem::replace((&mut *array.as_mut_ptr()).get_unchecked_mut(cur), ptr::read(&m.cols.get_unchecked(i).$get)));
+                            ptr::write((&mut *array.as_mut_ptr()).get_unchecked_mut(cur), ptr::read(&m.cols.get_unchecked(i).$get));
                             cur += 1;
                         }
                     )+
@@ -819,7 +819,7 @@ macro_rules! mat_impl_mat {
                     let mut m: mem::MaybeUninit<Self> = mem::MaybeUninit::uninit();
                     $(
                         for i in 0..$ncols {
-                            mem::forget(mem::replace(&mut (&mut *m.as_mut_ptr()).cols.get_unchecked_mut(i).$get, ptr::read(array.get_unchecked(cur))));
+                            ptr::write(&mut (&mut *m.as_mut_ptr()).cols.get_unchecked_mut(i).$get, ptr::read(array.get_unchecked(cur)));
                             cur += 1;
                         }
                     )+
